@@ -1,6 +1,6 @@
-\* Quick exhaustive configuration (`mix`): memtables + one table + one pending write, all shapes of bounds.
-\* The Bug* constants are TRUE = the code at the pinned commit; checks/c09.py overrides them from a probe of
-\* the code under test and derives the other stages (overlay, layers, late, sim) by substitution.
+\* Deeper exhaustive configuration (the `layers` stage of the thorough tier): no write-set, two rotations,
+\* flushes and compactions, one version newer than the snapshot.  ~2.6 M transitions, 2-3 minutes with 8 workers.
+\* checks/c09.py derives all its configurations from CursorMC.cfg; this file is for running TLC by hand.
 CONSTANTS
     NKeys = 4
     DataKeys = {1, 2, 3}
@@ -11,16 +11,16 @@ CONSTANTS
     BugSwitch = TRUE
     BugMemLast = TRUE
     MaxCommits = 2
-    MaxLate = 0
-    MaxWs = 1
-    MaxRotate = 1
-    MaxFlush = 1
-    MaxCompact = 0
+    MaxLate = 1
+    MaxWs = 0
+    MaxRotate = 2
+    MaxFlush = 2
+    MaxCompact = 2
     MaxOpen = 1
     MaxProg = 8
     BoundPts = {2, 4}
     SeekPts = {1, 2, 3}
-    MaxSteps = 9
+    MaxSteps = 11
 INIT MCInit
 NEXT MCNext
 CONSTRAINT Bound
